@@ -4,6 +4,7 @@ CONSTANTS
   FixFinal = TRUE
   FixSpillMin = TRUE
   FixLeftId = TRUE
+  FixEmptyMerge = TRUE
   ShapeSet = "tiny"
   Sizes = {1, 2, 7, 10}
   Spills = {3}
